@@ -497,7 +497,7 @@ class C01(Property):
         by_pid = {t.persistent_id: f"{t.tag}:{ids[id(t)]}" for k, t in events if k == "e" and id(t) in ids}
         size_pids = {t.persistent_id for k, t in events if k == "s"}
         provs = []
-        for t in out:
+        for t in (out if "perm" not in case else []):
             if isinstance(t, TerminationToken):
                 continue
             deps = [r["dependee"] for r in await rig.context.database.get_dependees(t.persistent_id)]
@@ -508,8 +508,9 @@ class C01(Property):
         pexp = (";".join(provs) or "-", "prov" if imposed else "provset", dict(case, stage=stage + ":provenance", line=line))
         self._lines.append(line)       # (line, expectation) are appended together: a crash in between must not misalign them
         self._expect.append(exp)
-        self._lines.append("gatherprov" + line[len("gather"):])
-        self._expect.append(pexp)
+        if "perm" not in case:
+            self._lines.append("gatherprov" + line[len("gather"):])
+            self._expect.append(pexp)
         return out
 
     async def _run_case(self, ctx: Ctx, rig: Rig, case: dict) -> None:
